@@ -510,6 +510,10 @@ class HistGen:
             elif self.n_live() < o['max_live']:
                 u = r.random()
                 if u < o['unsat_bias']:
+                    # an unsatisfiable group at the base level would make every later check-sat of the history trivial (the
+                    # solver remembers that level 0 is unsat): open a level first, so that a pop brings the stack back to life
+                    if incremental and self.depth() == 0 and r.random() < 0.85:
+                        self.do_push()
                     g = self.unsat_gadget()
                     self.emit_assert(g[0])
                     self.pending = g[1:]
